@@ -1,1 +1,824 @@
-//! XPath expression model, generator, renderer and reference evaluator (O2).
+//! XPath 1.0: expression model (AST), renderer with spelling choices, generator, shrinker and the
+//! reference evaluator (O2) over a reference tree built from a DocModel.
+//! Written from the XPath 1.0 recommendation (sections 2-5), not from xml-rs.
+use crate::model::{self, AttDefault, AttType, Decl, Doc, Entities, Node};
+use crate::rng::Rng;
+
+// ------------------------------------------------------------------------------------------------
+// reference tree (XPath data model, section 5)
+
+#[derive(Clone, Copy, PartialEq, Debug)]
+pub enum RKind { Root, Elem, Attr, Ns, Text, Comment, PI }
+
+#[derive(Clone, Debug)]
+pub struct RNode {
+    pub kind: RKind,
+    pub parent: Option<usize>,
+    pub children: Vec<usize>,
+    pub attrs: Vec<usize>,
+    pub nss: Vec<usize>,
+    pub prefix: Option<String>,
+    pub local: String,
+    pub uri: Option<String>,
+    pub value: String,
+    pub locator: String,
+}
+
+pub struct RTree { pub nodes: Vec<RNode> }
+
+impl RTree {
+    pub fn build(doc: &Doc) -> RTree {
+        let ents = Entities::of(doc);
+        let mut t = RTree { nodes: vec![] };
+        t.nodes.push(RNode { kind: RKind::Root, parent: None, children: vec![], attrs: vec![], nss: vec![], prefix: None, local: String::new(), uri: None, value: String::new(), locator: "/".into() });
+        let mut idx = 0usize;
+        let mut add_misc = |t: &mut RTree, m: &model::Misc, idx: &mut usize| {
+            let (kind, local, value) = match m { model::Misc::Comment(c) => (RKind::Comment, String::new(), model::norm_eol(c)), model::Misc::PI(tg, d) => (RKind::PI, tg.clone(), model::norm_eol(d.as_deref().unwrap_or(""))) };
+            let id = t.nodes.len();
+            t.nodes.push(RNode { kind, parent: Some(0), children: vec![], attrs: vec![], nss: vec![], prefix: None, local, uri: None, value, locator: format!("/{}", *idx) });
+            t.nodes[0].children.push(id);
+            *idx += 1;
+        };
+        for m in &doc.pre { add_misc(&mut t, m, &mut idx); }
+        for m in &doc.mid { add_misc(&mut t, m, &mut idx); }
+        let scope: Vec<(Option<String>, String)> = vec![(Some("xml".to_string()), model::XML_NS.to_string())];
+        t.elem(doc, &ents, &doc.root, 0, format!("/{}", idx), &scope);
+        idx += 1;
+        for m in &doc.post { add_misc(&mut t, m, &mut idx); }
+        t
+    }
+
+    fn att_defs(doc: &Doc, e: &model::Elem) -> Vec<model::AttDef> {
+        let mut v: Vec<model::AttDef> = vec![];
+        if let Some(dt) = &doc.doctype { if let Some(ds) = &dt.subset { for d in ds { if let Decl::Attlist(p, l, defs) = d {
+            if p == &e.prefix && l == &e.local { for df in defs { if !v.iter().any(|x| x.prefix == df.prefix && x.local == df.local) { v.push(df.clone()); } } }
+        } } } }
+        v
+    }
+
+    fn elem(&mut self, doc: &Doc, ents: &Entities, e: &model::Elem, parent: usize, locator: String, scope: &[(Option<String>, String)]) -> usize {
+        // in-scope namespaces
+        let mut sc: Vec<(Option<String>, String)> = scope.to_vec();
+        for (p, u) in &e.nsdecls { sc.retain(|x| &x.0 != p); sc.push((p.clone(), u.clone())); }
+        let lookup = |p: Option<&str>| -> Option<String> { sc.iter().find(|x| x.0.as_deref() == p).map(|x| x.1.clone()).filter(|u| !u.is_empty()) };
+        let id = self.nodes.len();
+        self.nodes.push(RNode { kind: RKind::Elem, parent: Some(parent), children: vec![], attrs: vec![], nss: vec![], prefix: e.prefix.clone(), local: e.local.clone(), uri: lookup(e.prefix.as_deref()), value: String::new(), locator: locator.clone() });
+        self.nodes[parent].children.push(id);
+        // namespace nodes (sorted by prefix for a canonical order)
+        let mut nss: Vec<(Option<String>, String)> = sc.iter().filter(|x| !x.1.is_empty()).cloned().collect();
+        nss.sort();
+        for (p, u) in nss {
+            let nid = self.nodes.len();
+            self.nodes.push(RNode { kind: RKind::Ns, parent: Some(id), children: vec![], attrs: vec![], nss: vec![], prefix: None, local: p.clone().unwrap_or_default(), uri: None, value: u.clone(), locator: format!("{}#{}={}", locator, p.unwrap_or_default(), u) });
+            self.nodes[id].nss.push(nid);
+        }
+        // attributes: written ones, then defaulted ones; canonical order by qualified name
+        let defs = Self::att_defs(doc, e);
+        let mut atts: Vec<(String, Option<String>, String, String)> = vec![];
+        for a in &e.attrs {
+            let cd = defs.iter().find(|d| d.prefix == a.prefix && d.local == a.local).map(|d| d.ty == AttType::CData).unwrap_or(true);
+            atts.push((qn(&a.prefix, &a.local), a.prefix.clone(), a.local.clone(), model::attr_normalized(&a.value, ents, cd)));
+        }
+        for d in &defs { if let AttDefault::Value(_, v) = &d.default { if !e.attrs.iter().any(|a| a.prefix == d.prefix && a.local == d.local) { atts.push((qn(&d.prefix, &d.local), d.prefix.clone(), d.local.clone(), model::attr_normalized(v, ents, d.ty == AttType::CData))); } } }
+        atts.sort();
+        for (q, p, l, v) in atts {
+            let aid = self.nodes.len();
+            let uri = if p.is_some() { lookup(p.as_deref()) } else { None };
+            self.nodes.push(RNode { kind: RKind::Attr, parent: Some(id), children: vec![], attrs: vec![], nss: vec![], prefix: p, local: l, uri, value: v, locator: format!("{}@{}", locator, q) });
+            self.nodes[id].attrs.push(aid);
+        }
+        // children (merged text view; no empty text nodes)
+        let mut idx = 0usize;
+        let mut run: Option<String> = None;
+        let flush = |t: &mut RTree, run: &mut Option<String>, idx: &mut usize| {
+            if let Some(s) = run.take() { if !s.is_empty() {
+                let tid = t.nodes.len();
+                t.nodes.push(RNode { kind: RKind::Text, parent: Some(id), children: vec![], attrs: vec![], nss: vec![], prefix: None, local: String::new(), uri: None, value: s, locator: format!("{}/{}", locator, *idx) });
+                t.nodes[id].children.push(tid);
+                *idx += 1;
+            } }
+        };
+        for c in &e.children {
+            let piece = match c { Node::Text(s) => Some(model::norm_eol(s)), Node::CData(s) => Some(model::norm_eol(s)), Node::CharRef(ch, _) => Some(ch.to_string()), Node::EntRef(n) => Some(ents.content_value(n)), _ => None };
+            if let Some(p) = piece { run.get_or_insert_with(String::new).push_str(&p); continue; }
+            flush(self, &mut run, &mut idx);
+            match c {
+                Node::Elem(ce) => { self.elem(doc, ents, ce, id, format!("{}/{}", locator, idx), &sc); }
+                Node::Comment(s) => { let cid = self.nodes.len(); self.nodes.push(RNode { kind: RKind::Comment, parent: Some(id), children: vec![], attrs: vec![], nss: vec![], prefix: None, local: String::new(), uri: None, value: model::norm_eol(s), locator: format!("{}/{}", locator, idx) }); self.nodes[id].children.push(cid); }
+                Node::PI(tg, d) => { let cid = self.nodes.len(); self.nodes.push(RNode { kind: RKind::PI, parent: Some(id), children: vec![], attrs: vec![], nss: vec![], prefix: None, local: tg.clone(), uri: None, value: model::norm_eol(d.as_deref().unwrap_or("")), locator: format!("{}/{}", locator, idx) }); self.nodes[id].children.push(cid); }
+                _ => unreachable!(),
+            }
+            idx += 1;
+        }
+        flush(self, &mut run, &mut idx);
+        id
+    }
+
+    pub fn string_value(&self, n: usize) -> String {
+        let nd = &self.nodes[n];
+        match nd.kind {
+            RKind::Root | RKind::Elem => { let mut s = String::new(); self.collect_text(n, &mut s); s }
+            _ => nd.value.clone(),
+        }
+    }
+    fn collect_text(&self, n: usize, s: &mut String) {
+        for &c in &self.nodes[n].children { match self.nodes[c].kind { RKind::Text => s.push_str(&self.nodes[c].value), RKind::Elem => self.collect_text(c, s), _ => {} } }
+    }
+    /// document order key: arena index (nodes are created in document order: element, its namespace
+    /// nodes, its attributes, its children)
+    pub fn descendants(&self, n: usize, out: &mut Vec<usize>) { for &c in &self.nodes[n].children { out.push(c); self.descendants(c, out); } }
+    pub fn is_ancestor(&self, a: usize, n: usize) -> bool { let mut p = self.nodes[n].parent; while let Some(x) = p { if x == a { return true; } p = self.nodes[x].parent; } false }
+}
+
+fn qn(p: &Option<String>, l: &str) -> String { match p { Some(p) => format!("{}:{}", p, l), None => l.to_string() } }
+
+// ------------------------------------------------------------------------------------------------
+// expression model
+
+#[derive(Clone, Copy, PartialEq, Debug)]
+pub enum Axis { Ancestor, AncestorOrSelf, Attribute, Child, Descendant, DescendantOrSelf, Following, FollowingSibling, Namespace, Parent, Preceding, PrecedingSibling, SelfAxis }
+pub const AXES: &[Axis] = &[Axis::Ancestor, Axis::AncestorOrSelf, Axis::Attribute, Axis::Child, Axis::Descendant, Axis::DescendantOrSelf, Axis::Following, Axis::FollowingSibling, Axis::Namespace, Axis::Parent, Axis::Preceding, Axis::PrecedingSibling, Axis::SelfAxis];
+impl Axis {
+    pub fn name(self) -> &'static str {
+        match self { Axis::Ancestor => "ancestor", Axis::AncestorOrSelf => "ancestor-or-self", Axis::Attribute => "attribute", Axis::Child => "child", Axis::Descendant => "descendant", Axis::DescendantOrSelf => "descendant-or-self", Axis::Following => "following", Axis::FollowingSibling => "following-sibling", Axis::Namespace => "namespace", Axis::Parent => "parent", Axis::Preceding => "preceding", Axis::PrecedingSibling => "preceding-sibling", Axis::SelfAxis => "self" }
+    }
+    pub fn reverse(self) -> bool { matches!(self, Axis::Ancestor | Axis::AncestorOrSelf | Axis::Preceding | Axis::PrecedingSibling) }
+}
+
+#[derive(Clone, PartialEq, Debug)]
+pub enum Test { Name(Option<String>, String), Any, NsAny(String), Text, Comment, PI, PITarget(String), Node }
+
+#[derive(Clone, PartialEq, Debug)]
+pub struct Step { pub axis: Axis, pub test: Test, pub preds: Vec<Expr>, pub dslash: bool }
+
+#[derive(Clone, PartialEq, Debug)]
+pub enum Start { Root, Context, Filter(Box<Expr>, Vec<Expr>) }
+
+#[derive(Clone, Copy, PartialEq, Debug)]
+pub enum Op { Or, And, Eq, Ne, Lt, Le, Gt, Ge, Add, Sub, Mul, Div, Mod, Union }
+impl Op {
+    pub fn prec(self) -> u8 { match self { Op::Or => 1, Op::And => 2, Op::Eq | Op::Ne => 3, Op::Lt | Op::Le | Op::Gt | Op::Ge => 4, Op::Add | Op::Sub => 5, Op::Mul | Op::Div | Op::Mod => 6, Op::Union => 8 } }
+    pub fn sym(self) -> &'static str { match self { Op::Or => "or", Op::And => "and", Op::Eq => "=", Op::Ne => "!=", Op::Lt => "<", Op::Le => "<=", Op::Gt => ">", Op::Ge => ">=", Op::Add => "+", Op::Sub => "-", Op::Mul => "*", Op::Div => "div", Op::Mod => "mod", Op::Union => "|" } }
+}
+pub const OPS: &[Op] = &[Op::Or, Op::And, Op::Eq, Op::Ne, Op::Lt, Op::Le, Op::Gt, Op::Ge, Op::Add, Op::Sub, Op::Mul, Op::Div, Op::Mod, Op::Union];
+
+#[derive(Clone, PartialEq, Debug)]
+pub enum Expr {
+    Bin(Op, Box<Expr>, Box<Expr>),
+    Neg(Box<Expr>),
+    Num(String),
+    Lit(String),
+    Func(String, Vec<Expr>),
+    Path(Start, Vec<Step>),
+    Var(String),
+}
+
+// ------------------------------------------------------------------------------------------------
+// rendering
+
+#[derive(Clone, Copy)]
+pub struct Spelling {
+    /// use abbreviated syntax where it exists
+    pub abbrev: bool,
+    /// optional white space between tokens
+    pub spaces: bool,
+    /// parenthesise every binary sub-expression
+    pub full_parens: bool,
+    /// wrap some primaries in redundant parentheses
+    pub redundant: bool,
+    /// [n] instead of [position()=n] and vice versa is a model transformation, not a spelling
+    pub outer_ws: bool,
+}
+impl Spelling {
+    pub fn canonical() -> Spelling { Spelling { abbrev: false, spaces: false, full_parens: false, redundant: false, outer_ws: false } }
+    pub fn abbreviated() -> Spelling { Spelling { abbrev: true, spaces: false, full_parens: false, redundant: false, outer_ws: false } }
+}
+
+struct R<'a> { sp: Spelling, rng: Option<&'a mut Rng>, out: String }
+impl<'a> R<'a> {
+    fn ws(&mut self) { if self.sp.spaces { if let Some(r) = self.rng.as_mut() { match r.below(4) { 0 => self.out.push(' '), 1 => self.out.push_str("  "), 2 => self.out.push('\n'), _ => {} } } } }
+    fn coin(&mut self) -> bool { match self.rng.as_mut() { Some(r) => r.chance(1, 2), None => true } }
+    fn tok(&mut self, s: &str) { self.out.push_str(s); }
+    /// a token that is lexed as a name or number needs separation from a preceding name character
+    fn name_tok(&mut self, s: &str) {
+        if let Some(c) = self.out.chars().last() { if c.is_alphanumeric() || c == '_' || c == '-' || c == '.' || c == ':' || (c as u32) > 127 { self.out.push(' '); } }
+        self.out.push_str(s);
+    }
+}
+
+fn prec_of(e: &Expr) -> u8 { match e { Expr::Bin(op, _, _) => op.prec(), Expr::Neg(_) => 7, _ => 9 } }
+
+fn r_expr(r: &mut R, e: &Expr, min_prec: u8) {
+    let p = prec_of(e);
+    let need = p < min_prec || (r.sp.full_parens && p < 9);
+    let redundant = !need && r.sp.redundant && p == 9 && !matches!(e, Expr::Path(Start::Root, _) | Expr::Path(Start::Context, _)) && r.coin() && r.coin();
+    if need || redundant { r.tok("("); r.ws(); }
+    match e {
+        Expr::Bin(op, a, b) => {
+            // all binary operators are left-associative: the right operand needs strictly higher precedence
+            r_expr(r, a, p);
+            r.ws();
+            match op {
+                Op::Or | Op::And | Op::Div | Op::Mod => { r.out.push(' '); r.tok(op.sym()); r.out.push(' '); }
+                Op::Sub => { r.out.push(' '); r.tok("-"); }
+                Op::Mul => { r.out.push(' '); r.tok("*"); }
+                _ => r.tok(op.sym()),
+            }
+            r.ws();
+            r_expr(r, b, p + 1);
+        }
+        Expr::Neg(a) => { r.tok("-"); r.ws(); r_expr(r, a, 7); }
+        Expr::Num(n) => r.name_tok(n),
+        Expr::Lit(s) => { if s.contains('"') { r.tok(&format!("'{}'", s)); } else if s.contains('\'') || r.coin() { r.tok(&format!("\"{}\"", s)); } else { r.tok(&format!("'{}'", s)); } }
+        Expr::Var(v) => r.tok(&format!("${}", v)),
+        Expr::Func(name, args) => {
+            r.name_tok(name); r.ws(); r.tok("("); r.ws();
+            for (i, a) in args.iter().enumerate() { if i > 0 { r.ws(); r.tok(","); r.ws(); } r_expr(r, a, 0); }
+            r.ws(); r.tok(")");
+        }
+        Expr::Path(start, steps) => r_path(r, start, steps),
+    }
+    if need || redundant { r.ws(); r.tok(")"); }
+}
+
+fn r_preds(r: &mut R, preds: &[Expr]) { for p in preds { r.ws(); r.tok("["); r.ws(); r_expr(r, p, 0); r.ws(); r.tok("]"); } }
+
+fn r_test(r: &mut R, t: &Test) {
+    match t {
+        Test::Name(p, l) => { let s = qn(p, l); r.name_tok(&s); }
+        Test::Any => r.tok("*"),
+        Test::NsAny(p) => { r.name_tok(p); r.tok(":*"); }
+        Test::Text => { r.name_tok("text"); r.ws(); r.tok("("); r.ws(); r.tok(")"); }
+        Test::Comment => { r.name_tok("comment"); r.ws(); r.tok("("); r.ws(); r.tok(")"); }
+        Test::PI => { r.name_tok("processing-instruction"); r.ws(); r.tok("("); r.ws(); r.tok(")"); }
+        Test::PITarget(s) => { r.name_tok("processing-instruction"); r.ws(); r.tok("("); r.ws(); r.tok(&format!("'{}'", s)); r.ws(); r.tok(")"); }
+        Test::Node => { r.name_tok("node"); r.ws(); r.tok("("); r.ws(); r.tok(")"); }
+    }
+}
+
+fn r_step(r: &mut R, s: &Step) {
+    let plain = s.preds.is_empty();
+    if r.sp.abbrev && plain && s.axis == Axis::SelfAxis && s.test == Test::Node { r.tok("."); return; }
+    if r.sp.abbrev && plain && s.axis == Axis::Parent && s.test == Test::Node { r.tok(".."); return; }
+    if r.sp.abbrev && s.axis == Axis::Child { r_test(r, &s.test); }
+    else if r.sp.abbrev && s.axis == Axis::Attribute { r.tok("@"); r_test(r, &s.test); }
+    else { r.name_tok(s.axis.name()); r.ws(); r.tok("::"); r.ws(); r_test(r, &s.test); }
+    r_preds(r, &s.preds);
+}
+
+fn r_path(r: &mut R, start: &Start, steps: &[Step]) {
+    let mut first = true;
+    match start {
+        Start::Root => { if steps.is_empty() { r.tok("/"); return; } }
+        Start::Context => {}
+        Start::Filter(e, preds) => {
+            // a filter expression's primary must be parenthesised unless it is a primary already
+            let prim = matches!(**e, Expr::Func(..) | Expr::Lit(_) | Expr::Num(_) | Expr::Var(_));
+            if prim && !r.sp.full_parens { r_expr(r, e, 9); } else { r.tok("("); r.ws(); r_expr(r, e, 0); r.ws(); r.tok(")"); }
+            r_preds(r, preds);
+            first = false;
+        }
+    }
+    for (i, s) in steps.iter().enumerate() {
+        let lead_sep = !first || matches!(start, Start::Root);
+        if s.dslash {
+            if r.sp.abbrev { if lead_sep || i > 0 { r.ws(); r.tok("//"); r.ws(); } else { r.tok("descendant-or-self::node()"); r.tok("/"); } }
+            else { if lead_sep || i > 0 { r.ws(); r.tok("/"); r.ws(); } r.tok("descendant-or-self::node()"); r.ws(); r.tok("/"); r.ws(); }
+        } else if lead_sep || i > 0 { r.ws(); r.tok("/"); r.ws(); }
+        r_step(r, s);
+        first = false;
+    }
+}
+
+pub fn render(e: &Expr, sp: Spelling, rng: Option<&mut Rng>) -> String {
+    let mut r = R { sp, rng, out: String::new() };
+    r_expr(&mut r, e, 0);
+    let mut s = r.out;
+    if sp.outer_ws { s = format!(" {}\n", s); }
+    s
+}
+
+// ------------------------------------------------------------------------------------------------
+// reference evaluator
+
+#[derive(Clone, Debug, PartialEq)]
+pub enum RV { Nodes(Vec<usize>), Bool(bool), Num(f64), Str(String) }
+
+#[derive(Clone, Debug, PartialEq)]
+pub enum RErr { Type(String), UnknownFunction(String), Arity(String), UnboundPrefix(String), Unsupported(String) }
+
+pub struct Env<'a> { pub tree: &'a RTree, pub ns: Vec<(String, String)>, pub default_ns: Option<String> }
+
+#[derive(Clone, Copy)]
+pub struct Cx { pub node: usize, pub pos: usize, pub size: usize }
+
+pub fn is_xml_ws(c: char) -> bool { matches!(c, ' ' | '\t' | '\n' | '\r') }
+
+/// XPath 1.0 section 4.4: string -> number
+pub fn str_to_num(s: &str) -> f64 {
+    let t = s.trim_matches(is_xml_ws);
+    let b = t.strip_prefix('-').unwrap_or(t);
+    let mut digits = 0; let mut dots = 0; let mut ok = !b.is_empty();
+    for c in b.chars() { if c.is_ascii_digit() { digits += 1; } else if c == '.' { dots += 1; } else { ok = false; } }
+    if !ok || digits == 0 || dots > 1 { return f64::NAN; }
+    // lexical form: Digits ('.' Digits?)? | '.' Digits
+    let v: f64 = if b.starts_with('.') { format!("0{}", b).parse().unwrap_or(f64::NAN) } else if b.ends_with('.') { format!("{}0", b).parse().unwrap_or(f64::NAN) } else { b.parse().unwrap_or(f64::NAN) };
+    if t.starts_with('-') { -v } else { v }
+}
+
+/// XPath 1.0 section 4.2: number -> string
+pub fn num_to_str(n: f64) -> String {
+    if n.is_nan() { return "NaN".into(); }
+    if n == 0.0 { return "0".into(); }
+    if n.is_infinite() { return if n > 0.0 { "Infinity".into() } else { "-Infinity".into() }; }
+    // Rust's Display prints the shortest decimal that round-trips, without exponent
+    format!("{}", n)
+}
+
+pub fn xpath_round(n: f64) -> f64 {
+    if n.is_nan() || n.is_infinite() { return n; }
+    if n.fract() == 0.0 { return n; }
+    if (-0.5..0.0).contains(&n) { return -0.0; }
+    (n + 0.5).floor()
+}
+
+pub fn xpath_substring(s: &str, start: f64, len: Option<f64>) -> String {
+    // characters at positions p (1-based) with p >= round(start) and p < round(start) + round(len)
+    let rs = xpath_round(start);
+    let end = match len { Some(l) => rs + xpath_round(l), None => f64::INFINITY };
+    let mut o = String::new();
+    for (i, c) in s.chars().enumerate() { let p = (i + 1) as f64; if p >= rs && p < end { o.push(c); } }
+    o
+}
+
+impl<'a> Env<'a> {
+    fn to_str(&self, v: &RV) -> String {
+        match v { RV::Str(s) => s.clone(), RV::Bool(b) => if *b { "true".into() } else { "false".into() }, RV::Num(n) => num_to_str(*n), RV::Nodes(ns) => ns.first().map(|n| self.tree.string_value(*n)).unwrap_or_default() }
+    }
+    fn to_num(&self, v: &RV) -> f64 { match v { RV::Num(n) => *n, RV::Bool(b) => if *b { 1.0 } else { 0.0 }, RV::Str(s) => str_to_num(s), RV::Nodes(_) => str_to_num(&self.to_str(v)) } }
+    fn to_bool(&self, v: &RV) -> bool { match v { RV::Bool(b) => *b, RV::Num(n) => !(*n == 0.0 || n.is_nan()), RV::Str(s) => !s.is_empty(), RV::Nodes(ns) => !ns.is_empty() } }
+
+    fn resolve(&self, p: &str) -> Result<String, RErr> { self.ns.iter().find(|x| x.0 == p).map(|x| x.1.clone()).ok_or_else(|| RErr::UnboundPrefix(p.to_string())) }
+
+    fn axis(&self, axis: Axis, n: usize) -> Vec<usize> {
+        let t = self.tree;
+        let nd = &t.nodes[n];
+        match axis {
+            Axis::Child => nd.children.clone(),
+            Axis::Attribute => nd.attrs.clone(),
+            Axis::Namespace => nd.nss.clone(),
+            Axis::Parent => nd.parent.into_iter().collect(),
+            Axis::SelfAxis => vec![n],
+            Axis::Descendant => { let mut v = vec![]; t.descendants(n, &mut v); v }
+            Axis::DescendantOrSelf => { let mut v = vec![n]; t.descendants(n, &mut v); v }
+            Axis::Ancestor => { let mut v = vec![]; let mut p = nd.parent; while let Some(x) = p { v.push(x); p = t.nodes[x].parent; } v }
+            Axis::AncestorOrSelf => { let mut v = vec![n]; let mut p = nd.parent; while let Some(x) = p { v.push(x); p = t.nodes[x].parent; } v }
+            Axis::FollowingSibling => { if matches!(nd.kind, RKind::Attr | RKind::Ns) { return vec![]; } match nd.parent { Some(p) => { let ch = &t.nodes[p].children; let i = ch.iter().position(|&c| c == n).unwrap(); ch[i + 1..].to_vec() } None => vec![] } }
+            Axis::PrecedingSibling => { if matches!(nd.kind, RKind::Attr | RKind::Ns) { return vec![]; } match nd.parent { Some(p) => { let ch = &t.nodes[p].children; let i = ch.iter().position(|&c| c == n).unwrap(); let mut v = ch[..i].to_vec(); v.reverse(); v } None => vec![] } }
+            Axis::Following => {
+                // all nodes after n in document order, excluding descendants, attributes and namespace nodes
+                let mut v = vec![];
+                for m in 0..t.nodes.len() { if m > n && !matches!(t.nodes[m].kind, RKind::Attr | RKind::Ns) && !t.is_ancestor(n, m) { v.push(m); } }
+                v
+            }
+            Axis::Preceding => {
+                let mut v = vec![];
+                for m in (0..t.nodes.len()).rev() { if m < n && !matches!(t.nodes[m].kind, RKind::Attr | RKind::Ns) && !t.is_ancestor(m, n) { v.push(m); } }
+                v
+            }
+        }
+    }
+
+    fn test(&self, axis: Axis, test: &Test, n: usize) -> Result<bool, RErr> {
+        let nd = &self.tree.nodes[n];
+        let principal = match axis { Axis::Attribute => RKind::Attr, Axis::Namespace => RKind::Ns, _ => RKind::Elem };
+        Ok(match test {
+            Test::Node => true,
+            Test::Text => nd.kind == RKind::Text,
+            Test::Comment => nd.kind == RKind::Comment,
+            Test::PI => nd.kind == RKind::PI,
+            Test::PITarget(t) => nd.kind == RKind::PI && &nd.local == t,
+            Test::Any => nd.kind == principal,
+            Test::NsAny(p) => { let u = self.resolve(p)?; nd.kind == principal && nd.uri.as_deref() == Some(u.as_str()) }
+            Test::Name(p, l) => {
+                let u = match p { Some(p) => Some(self.resolve(p)?), None => if principal == RKind::Elem { self.default_ns.clone() } else { None } };
+                nd.kind == principal && &nd.local == l && nd.uri == u
+            }
+        })
+    }
+
+    fn preds(&self, nodes: Vec<usize>, preds: &[Expr]) -> Result<Vec<usize>, RErr> {
+        // `nodes` is in axis order (proximity positions)
+        let mut cur = nodes;
+        for p in preds {
+            let size = cur.len();
+            let mut next = vec![];
+            for (i, &n) in cur.iter().enumerate() {
+                let v = self.eval(p, Cx { node: n, pos: i + 1, size })?;
+                let keep = match v { RV::Num(x) => x == (i + 1) as f64, other => self.to_bool(&other) };
+                if keep { next.push(n); }
+            }
+            cur = next;
+        }
+        Ok(cur)
+    }
+
+    fn step(&self, s: &Step, input: &[usize]) -> Result<Vec<usize>, RErr> {
+        let mut out: Vec<usize> = vec![];
+        let mut ctxs: Vec<usize> = input.to_vec();
+        if s.dslash { let mut v = vec![]; for &n in input { v.push(n); self.tree.descendants(n, &mut v); } v.sort(); v.dedup(); ctxs = v; }
+        for &n in &ctxs {
+            let mut cand = vec![];
+            for m in self.axis(s.axis, n) { if self.test(s.axis, &s.test, m)? { cand.push(m); } }
+            let kept = self.preds(cand, &s.preds)?;
+            out.extend(kept);
+        }
+        out.sort(); out.dedup();
+        Ok(out)
+    }
+
+    pub fn eval(&self, e: &Expr, cx: Cx) -> Result<RV, RErr> {
+        match e {
+            Expr::Num(n) => Ok(RV::Num(n.parse::<f64>().map_err(|_| RErr::Type("number".into()))?)),
+            Expr::Lit(s) => Ok(RV::Str(s.clone())),
+            Expr::Var(v) => Err(RErr::Unsupported(format!("${}", v))),
+            Expr::Neg(a) => { let v = self.eval(a, cx)?; Ok(RV::Num(-self.to_num(&v))) }
+            Expr::Path(start, steps) => {
+                let mut cur: Vec<usize> = match start {
+                    Start::Root => vec![0],
+                    Start::Context => vec![cx.node],
+                    Start::Filter(fe, preds) => {
+                        let v = self.eval(fe, cx)?;
+                        if preds.is_empty() && steps.is_empty() { return Ok(v); }
+                        match v { RV::Nodes(ns) => self.preds(ns, preds)?, _ => return Err(RErr::Type("filter/path on a non-node-set".into())) }
+                    }
+                };
+                for s in steps { cur = self.step(s, &cur)?; }
+                Ok(RV::Nodes(cur))
+            }
+            Expr::Bin(op, a, b) => {
+                match op {
+                    Op::Or => { let x = self.eval(a, cx)?; if self.to_bool(&x) { return Ok(RV::Bool(true)); } let y = self.eval(b, cx)?; Ok(RV::Bool(self.to_bool(&y))) }
+                    Op::And => { let x = self.eval(a, cx)?; if !self.to_bool(&x) { return Ok(RV::Bool(false)); } let y = self.eval(b, cx)?; Ok(RV::Bool(self.to_bool(&y))) }
+                    Op::Union => {
+                        let x = self.eval(a, cx)?; let y = self.eval(b, cx)?;
+                        match (x, y) { (RV::Nodes(mut p), RV::Nodes(q)) => { p.extend(q); p.sort(); p.dedup(); Ok(RV::Nodes(p)) } _ => Err(RErr::Type("union of non-node-sets".into())) }
+                    }
+                    Op::Add | Op::Sub | Op::Mul | Op::Div | Op::Mod => {
+                        let x = self.eval(a, cx)?; let y = self.eval(b, cx)?;
+                        let (x, y) = (self.to_num(&x), self.to_num(&y));
+                        Ok(RV::Num(match op { Op::Add => x + y, Op::Sub => x - y, Op::Mul => x * y, Op::Div => x / y, _ => x % y }))
+                    }
+                    _ => { let x = self.eval(a, cx)?; let y = self.eval(b, cx)?; Ok(RV::Bool(self.compare(*op, &x, &y))) }
+                }
+            }
+            Expr::Func(name, args) => self.func(name, args, cx),
+        }
+    }
+
+    fn cmp_num(op: Op, a: f64, b: f64) -> bool { match op { Op::Eq => a == b, Op::Ne => a != b, Op::Lt => a < b, Op::Le => a <= b, Op::Gt => a > b, _ => a >= b } }
+
+    /// XPath 1.0 section 3.4
+    fn compare(&self, op: Op, x: &RV, y: &RV) -> bool {
+        let eqop = matches!(op, Op::Eq | Op::Ne);
+        match (x, y) {
+            (RV::Nodes(p), RV::Nodes(q)) => {
+                for &a in p { for &b in q {
+                    let (sa, sb) = (self.tree.string_value(a), self.tree.string_value(b));
+                    let r = if eqop { if op == Op::Eq { sa == sb } else { sa != sb } } else { Self::cmp_num(op, str_to_num(&sa), str_to_num(&sb)) };
+                    if r { return true; }
+                } }
+                false
+            }
+            (RV::Nodes(p), other) | (other, RV::Nodes(p)) => {
+                let nodes_left = matches!(x, RV::Nodes(_));
+                match other {
+                    RV::Bool(b) => { let nb = !p.is_empty(); if eqop { if op == Op::Eq { nb == *b } else { nb != *b } } else { let (l, r) = if nodes_left { (nb as u8 as f64, *b as u8 as f64) } else { (*b as u8 as f64, nb as u8 as f64) }; Self::cmp_num(op, l, r) } }
+                    RV::Num(n) => p.iter().any(|&a| { let v = str_to_num(&self.tree.string_value(a)); if nodes_left { Self::cmp_num(op, v, *n) } else { Self::cmp_num(op, *n, v) } }),
+                    RV::Str(s) => p.iter().any(|&a| { let sv = self.tree.string_value(a); if eqop { if op == Op::Eq { &sv == s } else { &sv != s } } else { let (l, r) = (str_to_num(&sv), str_to_num(s)); if nodes_left { Self::cmp_num(op, l, r) } else { Self::cmp_num(op, r, l) } } }),
+                    RV::Nodes(_) => unreachable!(),
+                }
+            }
+            _ => {
+                if eqop {
+                    let r = if matches!(x, RV::Bool(_)) || matches!(y, RV::Bool(_)) { self.to_bool(x) == self.to_bool(y) }
+                        else if matches!(x, RV::Num(_)) || matches!(y, RV::Num(_)) { self.to_num(x) == self.to_num(y) }
+                        else { self.to_str(x) == self.to_str(y) };
+                    if op == Op::Eq { r } else {
+                        // != is not the negation for NaN
+                        if matches!(x, RV::Bool(_)) || matches!(y, RV::Bool(_)) { !r } else if matches!(x, RV::Num(_)) || matches!(y, RV::Num(_)) { self.to_num(x) != self.to_num(y) } else { !r }
+                    }
+                } else { Self::cmp_num(op, self.to_num(x), self.to_num(y)) }
+            }
+        }
+    }
+
+    fn func(&self, name: &str, args: &[Expr], cx: Cx) -> Result<RV, RErr> {
+        let arity = |lo: usize, hi: usize| -> Result<(), RErr> { if args.len() < lo || args.len() > hi { Err(RErr::Arity(name.to_string())) } else { Ok(()) } };
+        let t = self.tree;
+        // evaluate arguments eagerly, left to right (errors propagate)
+        let ev = |i: usize| -> Result<RV, RErr> { self.eval(&args[i], cx) };
+        let nodeset_arg_or_ctx = |me: &Env| -> Result<Option<usize>, RErr> {
+            if args.is_empty() { return Ok(Some(cx.node)); }
+            match me.eval(&args[0], cx)? { RV::Nodes(ns) => Ok(ns.first().cloned()), _ => Err(RErr::Type(format!("{} expects a node-set", name))) }
+        };
+        match name {
+            "last" => { arity(0, 0)?; Ok(RV::Num(cx.size as f64)) }
+            "position" => { arity(0, 0)?; Ok(RV::Num(cx.pos as f64)) }
+            "count" => { arity(1, 1)?; match ev(0)? { RV::Nodes(ns) => Ok(RV::Num(ns.len() as f64)), _ => Err(RErr::Type("count".into())) } }
+            "id" => Err(RErr::Unsupported("id".into())),
+            "local-name" => { arity(0, 1)?; Ok(RV::Str(match nodeset_arg_or_ctx(self)? { Some(n) => match t.nodes[n].kind { RKind::Elem | RKind::Attr | RKind::PI | RKind::Ns => t.nodes[n].local.clone(), _ => String::new() }, None => String::new() })) }
+            "namespace-uri" => { arity(0, 1)?; Ok(RV::Str(match nodeset_arg_or_ctx(self)? { Some(n) => match t.nodes[n].kind { RKind::Elem | RKind::Attr => t.nodes[n].uri.clone().unwrap_or_default(), _ => String::new() }, None => String::new() })) }
+            "name" => { arity(0, 1)?; Ok(RV::Str(match nodeset_arg_or_ctx(self)? { Some(n) => match t.nodes[n].kind { RKind::Elem | RKind::Attr => qn(&t.nodes[n].prefix, &t.nodes[n].local), RKind::PI | RKind::Ns => t.nodes[n].local.clone(), _ => String::new() }, None => String::new() })) }
+            "string" => { arity(0, 1)?; if args.is_empty() { Ok(RV::Str(t.string_value(cx.node))) } else { let v = ev(0)?; Ok(RV::Str(self.to_str(&v))) } }
+            "concat" => { if args.len() < 2 { return Err(RErr::Arity(name.into())); } let mut s = String::new(); for i in 0..args.len() { let v = ev(i)?; s.push_str(&self.to_str(&v)); } Ok(RV::Str(s)) }
+            "starts-with" => { arity(2, 2)?; let (a, b) = (ev(0)?, ev(1)?); Ok(RV::Bool(self.to_str(&a).starts_with(&self.to_str(&b)))) }
+            "contains" => { arity(2, 2)?; let (a, b) = (ev(0)?, ev(1)?); Ok(RV::Bool(self.to_str(&a).contains(&self.to_str(&b)))) }
+            "substring-before" => { arity(2, 2)?; let (a, b) = (ev(0)?, ev(1)?); let (a, b) = (self.to_str(&a), self.to_str(&b)); Ok(RV::Str(a.find(&b).map(|i| a[..i].to_string()).unwrap_or_default())) }
+            "substring-after" => { arity(2, 2)?; let (a, b) = (ev(0)?, ev(1)?); let (a, b) = (self.to_str(&a), self.to_str(&b)); Ok(RV::Str(a.find(&b).map(|i| a[i + b.len()..].to_string()).unwrap_or_default())) }
+            "substring" => { arity(2, 3)?; let s = ev(0)?; let st = ev(1)?; let ln = if args.len() == 3 { Some(self.to_num(&ev(2)?)) } else { None }; Ok(RV::Str(xpath_substring(&self.to_str(&s), self.to_num(&st), ln))) }
+            "string-length" => { arity(0, 1)?; let s = if args.is_empty() { t.string_value(cx.node) } else { let v = ev(0)?; self.to_str(&v) }; Ok(RV::Num(s.chars().count() as f64)) }
+            "normalize-space" => { arity(0, 1)?; let s = if args.is_empty() { t.string_value(cx.node) } else { let v = ev(0)?; self.to_str(&v) }; Ok(RV::Str(s.split(is_xml_ws).filter(|x| !x.is_empty()).collect::<Vec<_>>().join(" "))) }
+            "translate" => { arity(3, 3)?; let (a, b, c) = (ev(0)?, ev(1)?, ev(2)?); let (a, b, c) = (self.to_str(&a), self.to_str(&b), self.to_str(&c)); let from: Vec<char> = b.chars().collect(); let to: Vec<char> = c.chars().collect(); let mut o = String::new(); for ch in a.chars() { match from.iter().position(|x| *x == ch) { Some(i) => { if let Some(r) = to.get(i) { o.push(*r); } } None => o.push(ch) } } Ok(RV::Str(o)) }
+            "boolean" => { arity(1, 1)?; let v = ev(0)?; Ok(RV::Bool(self.to_bool(&v))) }
+            "not" => { arity(1, 1)?; let v = ev(0)?; Ok(RV::Bool(!self.to_bool(&v))) }
+            "true" => { arity(0, 0)?; Ok(RV::Bool(true)) }
+            "false" => { arity(0, 0)?; Ok(RV::Bool(false)) }
+            "lang" => {
+                arity(1, 1)?; let want = self.to_str(&ev(0)?).to_ascii_lowercase();
+                let mut n = Some(cx.node);
+                while let Some(x) = n {
+                    if let Some(&a) = t.nodes[x].attrs.iter().find(|&&a| t.nodes[a].local == "lang" && t.nodes[a].uri.as_deref() == Some(model::XML_NS)) {
+                        let have = t.nodes[a].value.to_ascii_lowercase();
+                        return Ok(RV::Bool(have == want || (have.starts_with(&want) && have[want.len()..].starts_with('-'))));
+                    }
+                    n = t.nodes[x].parent;
+                }
+                Ok(RV::Bool(false))
+            }
+            "number" => { arity(0, 1)?; if args.is_empty() { Ok(RV::Num(str_to_num(&t.string_value(cx.node)))) } else { let v = ev(0)?; Ok(RV::Num(self.to_num(&v))) } }
+            "sum" => { arity(1, 1)?; match ev(0)? { RV::Nodes(ns) => Ok(RV::Num(ns.iter().map(|&n| str_to_num(&t.string_value(n))).sum())), _ => Err(RErr::Type("sum".into())) } }
+            "floor" => { arity(1, 1)?; let v = ev(0)?; Ok(RV::Num(self.to_num(&v).floor())) }
+            "ceiling" => { arity(1, 1)?; let v = ev(0)?; Ok(RV::Num(self.to_num(&v).ceil())) }
+            "round" => { arity(1, 1)?; let v = ev(0)?; Ok(RV::Num(xpath_round(self.to_num(&v)))) }
+            _ => Err(RErr::UnknownFunction(name.to_string())),
+        }
+    }
+}
+
+// ------------------------------------------------------------------------------------------------
+// features (for coverage histograms and signatures)
+
+pub fn features(e: &Expr, out: &mut Vec<String>) {
+    match e {
+        Expr::Bin(op, a, b) => { out.push(format!("op:{}", op.sym())); features(a, out); features(b, out); }
+        Expr::Neg(a) => { out.push("op:neg".into()); features(a, out); }
+        Expr::Num(_) => out.push("num".into()),
+        Expr::Lit(_) => out.push("lit".into()),
+        Expr::Var(_) => out.push("var".into()),
+        Expr::Func(n, args) => { out.push(format!("fn:{}", n)); for a in args { features(a, out); } }
+        Expr::Path(start, steps) => {
+            match start { Start::Root => out.push("abs".into()), Start::Context => {} Start::Filter(fe, preds) => { out.push("filter".into()); features(fe, out); for p in preds { out.push("filter-pred".into()); pred_features(p, out); } } }
+            for s in steps {
+                out.push(format!("axis:{}", s.axis.name()));
+                if s.dslash { out.push("dslash".into()); }
+                out.push(match &s.test { Test::Name(Some(_), _) => "test:qname", Test::Name(None, _) => "test:name", Test::Any => "test:*", Test::NsAny(_) => "test:p:*", Test::Text => "test:text()", Test::Comment => "test:comment()", Test::PI => "test:pi()", Test::PITarget(_) => "test:pi(lit)", Test::Node => "test:node()" }.to_string());
+                for p in &s.preds { out.push(if s.axis.reverse() { "pred-on-reverse-axis" } else { "pred" }.to_string()); pred_features(p, out); }
+            }
+        }
+    }
+}
+fn pred_features(p: &Expr, out: &mut Vec<String>) {
+    if let Expr::Num(_) = p { out.push("pred-number".into()); }
+    let mut inner = vec![]; features(p, &mut inner);
+    if inner.iter().any(|f| f == "pred" || f == "pred-on-reverse-axis") { out.push("nested-pred".into()); }
+    out.extend(inner);
+}
+pub fn feature_set(e: &Expr) -> Vec<String> { let mut v = vec![]; features(e, &mut v); v.sort(); v.dedup(); v }
+
+// ------------------------------------------------------------------------------------------------
+// generator
+
+#[derive(Clone)]
+pub struct XGen {
+    pub names: Vec<String>,
+    pub attr_names: Vec<String>,
+    pub prefixes: Vec<String>,
+    pub texts: Vec<String>,
+    pub pi_targets: Vec<String>,
+    /// axes the generator may use (known-finding exclusions shrink this list)
+    pub axes: Vec<Axis>,
+    pub funcs: Vec<&'static str>,
+    pub allow_pi_literal: bool,
+    pub max_depth: usize,
+}
+
+pub const FUNCS: &[(&str, usize, usize, char)] = &[
+    // name, min args, max args, result kind (n number, s string, b bool, N node-set)
+    ("last", 0, 0, 'n'), ("position", 0, 0, 'n'), ("count", 1, 1, 'n'), ("local-name", 0, 1, 's'), ("namespace-uri", 0, 1, 's'), ("name", 0, 1, 's'),
+    ("string", 0, 1, 's'), ("concat", 2, 3, 's'), ("starts-with", 2, 2, 'b'), ("contains", 2, 2, 'b'), ("substring-before", 2, 2, 's'), ("substring-after", 2, 2, 's'),
+    ("substring", 2, 3, 's'), ("string-length", 0, 1, 'n'), ("normalize-space", 0, 1, 's'), ("translate", 3, 3, 's'), ("boolean", 1, 1, 'b'), ("not", 1, 1, 'b'),
+    ("true", 0, 0, 'b'), ("false", 0, 0, 'b'), ("lang", 1, 1, 'b'), ("number", 0, 1, 'n'), ("sum", 1, 1, 'n'), ("floor", 1, 1, 'n'), ("ceiling", 1, 1, 'n'), ("round", 1, 1, 'n'),
+];
+
+impl XGen {
+    pub fn for_doc(doc: &Doc) -> XGen {
+        let mut names = vec![]; let mut attrs = vec![]; let mut texts = vec![]; let mut pis = vec![]; let mut prefixes = vec![];
+        fn walk(e: &model::Elem, names: &mut Vec<String>, attrs: &mut Vec<String>, texts: &mut Vec<String>, pis: &mut Vec<String>, prefixes: &mut Vec<String>) {
+            if !names.contains(&e.local) { names.push(e.local.clone()); }
+            for (p, _) in &e.nsdecls { if let Some(p) = p { if !prefixes.contains(p) { prefixes.push(p.clone()); } } }
+            for a in &e.attrs { if !attrs.contains(&a.local) { attrs.push(a.local.clone()); } }
+            for c in &e.children { match c { Node::Elem(x) => walk(x, names, attrs, texts, pis, prefixes), Node::Text(t) => { let t = t.trim().to_string(); if !t.is_empty() && !t.contains('\'') && !t.contains('"') && texts.len() < 6 { texts.push(t); } } Node::PI(t, _) => { if !pis.contains(t) { pis.push(t.clone()); } } _ => {} } }
+        }
+        walk(&doc.root, &mut names, &mut attrs, &mut texts, &mut pis, &mut prefixes);
+        names.push("nomatch".into());
+        if attrs.is_empty() { attrs.push("a".into()); }
+        texts.push("a".into()); texts.push("".into()); texts.push(" 12 ".into()); texts.push("-3.5".into());
+        if pis.is_empty() { pis.push("pi".into()); }
+        XGen { names, attr_names: attrs, prefixes, texts, pi_targets: pis, axes: AXES.to_vec(), funcs: FUNCS.iter().map(|f| f.0).collect(), allow_pi_literal: false, max_depth: 3 }
+    }
+
+    fn name_test(&self, r: &mut Rng, axis: Axis) -> Test {
+        let pool = if axis == Axis::Attribute { &self.attr_names } else { &self.names };
+        match r.below(10) {
+            0 | 1 | 2 => Test::Any,
+            3 if !self.prefixes.is_empty() => Test::NsAny(r.pick(&self.prefixes).clone()),
+            4 if !self.prefixes.is_empty() => Test::Name(Some(r.pick(&self.prefixes).clone()), r.pick(pool).clone()),
+            _ => Test::Name(None, r.pick(pool).clone()),
+        }
+    }
+
+    pub fn step(&self, r: &mut Rng, depth: usize, prev_axis: Option<Axis>) -> Step {
+        // after an attribute / namespace step only self is meaningful in this DOM (an attribute has no parent)
+        let axis = if matches!(prev_axis, Some(Axis::Attribute) | Some(Axis::Namespace)) { Axis::SelfAxis } else {
+            let w: Vec<u32> = self.axes.iter().map(|a| match a { Axis::Child => 8, Axis::Attribute => 3, Axis::Descendant | Axis::DescendantOrSelf => 3, Axis::Namespace => 1, _ => 2 }).collect();
+            self.axes[r.weighted(&w)]
+        };
+        let test = if matches!(axis, Axis::Attribute | Axis::Namespace) { if r.chance(1, 4) { Test::Node } else { self.name_test(r, axis) } } else {
+            match r.below(12) { 0 => Test::Text, 1 => Test::Comment, 2 => Test::PI, 3 | 4 => Test::Node, 5 if self.allow_pi_literal => Test::PITarget(r.pick(&self.pi_targets).clone()), _ => self.name_test(r, axis) }
+        };
+        let mut preds = vec![];
+        if depth < self.max_depth {
+            let np = r.weighted(&[6, 3, 1]);
+            // the relative order of attributes / namespace nodes of one element is implementation dependent:
+            // no position-sensitive predicates directly on those axes
+            let positional_ok = !matches!(axis, Axis::Attribute | Axis::Namespace);
+            for _ in 0..np { preds.push(self.pred(r, depth + 1, positional_ok)); }
+        }
+        Step { axis, test, preds, dslash: r.chance(1, 8) && !matches!(prev_axis, Some(Axis::Attribute) | Some(Axis::Namespace)) }
+    }
+
+    pub fn pred(&self, r: &mut Rng, depth: usize, positional_ok: bool) -> Expr {
+        match r.below(10) {
+            0 | 1 if positional_ok => Expr::Num(r.pick_s(&["1", "2", "3", "1.5", "0"]).to_string()),
+            2 if positional_ok => Expr::Bin(*r.pick(&[Op::Eq, Op::Lt, Op::Ge, Op::Ne]), Box::new(Expr::Func("position".into(), vec![])), Box::new(if r.chance(1, 2) { Expr::Func("last".into(), vec![]) } else { Expr::Num(r.pick_s(&["1", "2"]).to_string()) })),
+            3 if positional_ok => Expr::Func("last".into(), vec![]),
+            4 | 5 => self.nodeset(r, depth, false),
+            _ => self.boolean(r, depth),
+        }
+    }
+
+    /// a node-set valued expression
+    pub fn nodeset(&self, r: &mut Rng, depth: usize, allow_abs: bool) -> Expr {
+        let k = r.below(12);
+        if depth < self.max_depth && k == 0 { return Expr::Bin(Op::Union, Box::new(self.nodeset(r, depth + 1, allow_abs)), Box::new(self.nodeset(r, depth + 1, allow_abs))); }
+        if depth < self.max_depth && k == 1 {
+            // filter expression: (nodeset)[pred] possibly followed by steps
+            let inner = self.nodeset(r, depth + 1, allow_abs);
+            let np = r.range(0, 2);
+            let preds: Vec<Expr> = (0..np).map(|_| self.pred(r, depth + 1, true)).collect();
+            let ns = r.range(0, 2);
+            let mut steps = vec![]; let mut prev = None;
+            for _ in 0..ns { let s = self.step(r, depth + 1, prev); prev = Some(s.axis); steps.push(s); }
+            return Expr::Path(Start::Filter(Box::new(inner), preds), steps);
+        }
+        let start = if allow_abs && r.chance(2, 3) || r.chance(1, 6) { Start::Root } else { Start::Context };
+        let n = r.weighted(&[0, 5, 5, 3, 1]);
+        let mut steps = vec![]; let mut prev = None;
+        for _ in 0..n { let s = self.step(r, depth, prev); prev = Some(s.axis); steps.push(s); }
+        if start == Start::Root && r.chance(1, 15) { steps.clear(); }
+        Expr::Path(start, steps)
+    }
+
+    pub fn string(&self, r: &mut Rng, depth: usize) -> Expr {
+        if depth >= self.max_depth { return Expr::Lit(r.pick(&self.texts).clone()); }
+        match r.below(8) {
+            0 | 1 => Expr::Lit(r.pick(&self.texts).clone()),
+            2 => self.nodeset(r, depth + 1, true),
+            _ => self.func_of_kind(r, depth, 's'),
+        }
+    }
+    pub fn number(&self, r: &mut Rng, depth: usize) -> Expr {
+        if depth >= self.max_depth { return Expr::Num(r.pick_s(&["0", "1", "2", "3.5", "10", ".5", "1."]).to_string()); }
+        match r.below(9) {
+            0 | 1 => Expr::Num(r.pick_s(&["0", "1", "2", "3.5", "10", ".5", "1.", "007"]).to_string()),
+            2 => Expr::Bin(*r.pick(&[Op::Add, Op::Sub, Op::Mul, Op::Div, Op::Mod]), Box::new(self.number(r, depth + 1)), Box::new(self.number(r, depth + 1))),
+            3 => Expr::Neg(Box::new(self.number(r, depth + 1))),
+            4 => self.nodeset(r, depth + 1, true),
+            _ => self.func_of_kind(r, depth, 'n'),
+        }
+    }
+    pub fn boolean(&self, r: &mut Rng, depth: usize) -> Expr {
+        if depth >= self.max_depth { return Expr::Func(if r.chance(1, 2) { "true" } else { "false" }.into(), vec![]); }
+        match r.below(10) {
+            0 => Expr::Bin(if r.chance(1, 2) { Op::Or } else { Op::And }, Box::new(self.boolean(r, depth + 1)), Box::new(self.boolean(r, depth + 1))),
+            1 | 2 | 3 => { let op = *r.pick(&[Op::Eq, Op::Ne, Op::Lt, Op::Le, Op::Gt, Op::Ge]); Expr::Bin(op, Box::new(self.any(r, depth + 1)), Box::new(self.any(r, depth + 1))) }
+            4 | 5 => self.nodeset(r, depth + 1, false),
+            _ => self.func_of_kind(r, depth, 'b'),
+        }
+    }
+    pub fn any(&self, r: &mut Rng, depth: usize) -> Expr {
+        match r.below(4) { 0 => self.nodeset(r, depth, true), 1 => self.string(r, depth), 2 => self.number(r, depth), _ => self.boolean(r, depth) }
+    }
+    fn func_of_kind(&self, r: &mut Rng, depth: usize, kind: char) -> Expr {
+        let cands: Vec<&(&str, usize, usize, char)> = FUNCS.iter().filter(|f| f.3 == kind && self.funcs.contains(&f.0) && !(matches!(f.0, "last" | "position"))).collect();
+        let f = *r.pick(&cands);
+        let n = r.range(f.1, f.2);
+        let mut args = vec![];
+        for i in 0..n {
+            let a = match f.0 {
+                "count" | "sum" => self.nodeset(r, depth + 1, true),
+                "local-name" | "namespace-uri" | "name" => self.nodeset(r, depth + 1, true),
+                "substring" if i > 0 => self.number(r, depth + 1),
+                "floor" | "ceiling" | "round" | "number" => if r.chance(1, 2) { self.number(r, depth + 1) } else { self.any(r, depth + 1) },
+                "boolean" | "not" => self.any(r, depth + 1),
+                "lang" => Expr::Lit(r.pick_s(&["en", "EN", "e", "en-US", ""]).to_string()),
+                _ => if r.chance(2, 3) { self.string(r, depth + 1) } else { self.any(r, depth + 1) },
+            };
+            args.push(a);
+        }
+        Expr::Func(f.0.to_string(), args)
+    }
+    /// top-level expression of the supported language
+    pub fn top(&self, r: &mut Rng) -> Expr {
+        match r.below(10) { 0..=5 => self.nodeset(r, 0, true), 6 => self.string(r, 0), 7 => self.number(r, 0), _ => self.boolean(r, 0) }
+    }
+}
+
+// ------------------------------------------------------------------------------------------------
+// shrinking of expressions
+
+fn sub_exprs(e: &Expr) -> Vec<Expr> {
+    let mut v = vec![];
+    match e {
+        Expr::Bin(_, a, b) => { v.push((**a).clone()); v.push((**b).clone()); }
+        Expr::Neg(a) => v.push((**a).clone()),
+        Expr::Func(_, args) => v.extend(args.iter().cloned()),
+        Expr::Path(start, steps) => {
+            if let Start::Filter(fe, preds) = start { v.push((**fe).clone()); v.extend(preds.iter().cloned()); }
+            for s in steps { v.extend(s.preds.iter().cloned()); }
+        }
+        _ => {}
+    }
+    v
+}
+
+/// single-step reductions of an expression
+pub fn reductions(e: &Expr) -> Vec<Expr> {
+    let mut out = sub_exprs(e);
+    match e {
+        Expr::Bin(op, a, b) => {
+            for ra in reductions(a) { out.push(Expr::Bin(*op, Box::new(ra), b.clone())); }
+            for rb in reductions(b) { out.push(Expr::Bin(*op, a.clone(), Box::new(rb))); }
+        }
+        Expr::Neg(a) => for ra in reductions(a) { out.push(Expr::Neg(Box::new(ra))); },
+        Expr::Func(n, args) => { for (i, a) in args.iter().enumerate() { for ra in reductions(a) { let mut x = args.clone(); x[i] = ra; out.push(Expr::Func(n.clone(), x)); } } }
+        Expr::Path(start, steps) => {
+            // drop a step (first or last), drop a predicate, un-dslash, reduce inside predicates
+            if steps.len() > 1 { out.push(Expr::Path(start.clone(), steps[1..].to_vec())); out.push(Expr::Path(start.clone(), steps[..steps.len() - 1].to_vec())); }
+            if *start == Start::Root && !steps.is_empty() { out.push(Expr::Path(Start::Context, steps.clone())); }
+            for (i, s) in steps.iter().enumerate() {
+                if s.dslash { let mut x = steps.clone(); x[i].dslash = false; out.push(Expr::Path(start.clone(), x)); }
+                for j in 0..s.preds.len() { let mut x = steps.clone(); x[i].preds.remove(j); out.push(Expr::Path(start.clone(), x)); }
+                for (j, p) in s.preds.iter().enumerate() { for rp in reductions(p) { let mut x = steps.clone(); x[i].preds[j] = rp; out.push(Expr::Path(start.clone(), x)); } }
+                if s.test != Test::Node { let mut x = steps.clone(); x[i].test = Test::Node; out.push(Expr::Path(start.clone(), x)); }
+            }
+            if let Start::Filter(fe, preds) = start {
+                for j in 0..preds.len() { let mut p2 = preds.clone(); p2.remove(j); out.push(Expr::Path(Start::Filter(fe.clone(), p2), steps.clone())); }
+                for rf in reductions(fe) { out.push(Expr::Path(Start::Filter(Box::new(rf), preds.clone()), steps.clone())); }
+                for (j, p) in preds.iter().enumerate() { for rp in reductions(p) { let mut p2 = preds.clone(); p2[j] = rp; out.push(Expr::Path(Start::Filter(fe.clone(), p2), steps.clone())); } }
+            }
+        }
+        _ => {}
+    }
+    out
+}
+
+pub fn size(e: &Expr) -> usize { 1 + sub_exprs(e).iter().map(size).sum::<usize>() + match e { Expr::Path(_, s) => s.len(), _ => 0 } }
+
+pub fn shrink(e: &Expr, fails: &mut dyn FnMut(&Expr) -> bool) -> Expr {
+    let mut cur = e.clone();
+    let mut budget = 300;
+    'outer: loop {
+        let mut cands = reductions(&cur);
+        cands.sort_by_key(size);
+        for c in cands {
+            if budget == 0 { break 'outer; }
+            if size(&c) >= size(&cur) { continue; }
+            budget -= 1;
+            if fails(&c) { cur = c; continue 'outer; }
+        }
+        break;
+    }
+    cur
+}
